@@ -271,7 +271,7 @@ def search_rename(ctx: Ctx) -> SearchResult:
 				res.findings.append(f)
 
 	# 2. generated programs × adversarial renamings
-	n_prog = ctx.scale(36, 150)
+	n_prog = ctx.scale(36, 125)
 	per_prog = ctx.scale(3, 5)
 	for origin, src, tag in program_stream(ctx, rng, n_prog):
 		try:
@@ -1050,6 +1050,17 @@ STATEMENTS = {
 	'string_refines_standard': 'by_standard on the joined strings = encoding of the abstract lookup',
 	'string_refines_names': 'Node.scope / namespace / fullyname / DeclThisVar.fullyname on strings = encodings of the abstract ones',
 	'string_refines_merging': 'VarsCollector._merged / _collect_impl on the joined strings (ModuleDSN.expanded + element-wise prefix, as repaired in 526fc7c) = encoding of merging on element lists, for all well-formed declarations; the former counterexample witnesses (for@10 / for@107, ab / abc) are regression examples',
+	'equivariant_naming': 'ClassDomainNaming.domain_name / accessible_name / fullyname (alias table, Embed.alias, enclosing classes) commute with every injective renaming',
+	'equivariant_member_lookup': 'Enum.var_value (member lookup by name) commutes with every injective renaming',
+	'string_refines_naming': 'class naming on strings (DSN.join, alias key aliases.<fullyname>) = dotted string of the abstract pieces, for well-formed keys and non-empty names',
+	'string_refines_member_lookup': 'the member lookup on strings is the abstract lookup at N := Str (whole-name equality)',
+	'naming_startswith_counterexample': 'REGRESSION (seeded mutation): accessible_name with a bare domain_name.startswith(namespace) guard does not refine — Box.BoxItem loses Box',
+	'member_lookup_suffix_counterexample': 'REGRESSION (seeded mutation): lookup by var_name.endswith(member) is not lookup by name — DARK_RED finds RED',
+	'relativefy_counterexample': 'DSN.relativefy as a function: the bare origin.split(starts)[1] is not the path after starts (ab.ab.c relative to ab); no caller reaches it with user names',
+	'fragment_relay': "PatternParser.break_relay('recv<op>ident') = (recv, op) for every identifier and every non-empty one-line receiver",
+	'fragment_dict_iterator': "PatternParser.break_dict_iterator('recv<op>m()') = (recv, op, m)",
+	'fragment_cvar_suffix': 'sub_cvar_relay / sub_cvar_to strip a trailing <op>name() iff name IS on / a cast word (xon(), draw() untouched)',
+	'fragment_class_var_name': "pluck_class_var_name('<type> <name> = …') = name for a blank-free type",
 	'equivariant': 'bundle of the equivariant_* theorems for an injective renaming that fixes the reserved words',
 	'string_refines': 'bundle of the string_refines_* theorems for well-formed names',
 }
@@ -1058,9 +1069,9 @@ STATEMENTS = {
 def run(ctx: Ctx) -> int:
 	proof = common.prove(ctx, PROP, leanchecker=ctx.thorough)
 	with ctx.timed('correspondence'):
-		streams = [stream_dsn(ctx), stream_real(ctx), stream_synth(ctx), stream_merge(ctx)]
+		streams = [stream_dsn(ctx), stream_real(ctx), stream_synth(ctx), stream_merge(ctx), stream_naming(ctx), stream_fragments(ctx)]
 	with ctx.timed('search'):
-		searches = [search_rename(ctx), search_sibling_scopes(ctx), search_symtable(ctx)]
+		searches = [search_rename(ctx), search_sibling_scopes(ctx), search_symtable(ctx), search_fragments(ctx)]
 	return common.finish(ctx, proof, streams, searches,
 		statements=STATEMENTS,
 		partial={
@@ -1068,7 +1079,7 @@ def run(ctx: Ctx) -> int:
 				'the string layer refines the abstract layer for identifier names for every modelled function, including VarsCollector._merged as repaired in 526fc7c',
 			'correspondence_only': 'that the two model layers are what the Python does (streams dsn, scope-real, scope-synth, merge)',
 			'search_only': 'the whole-pipeline law transpile(r(P)) == r(transpile(P)) incl. templates and the regex/string post-processing of py2cpp.py:1679-1836, symbol keys, inferred type strings',
-			'not_modelled': 'DSN.relativefy (bare split(starts)) as used by ClassDomainNaming.__namespace without alias handler (debug path only); alias_dsn / i18n lookups',
+			'not_modelled': 'the handler-less ClassDomainNaming.__namespace only on the string layer (dead from Py2Cpp); ListSortKeyPattern, cpp_view_helper regexes and the templates: search only; BlockParser: property C18',
 		},
 		assumptions=[
 			'names are non-empty strings without "." and "#" (every Python identifier; tranp scope words like if@115); module paths are non-empty without "#"',
@@ -1098,6 +1109,79 @@ def replay(ctx: Ctx, path: str) -> int:
 		return 1 if (a['error'] or 'ok') != (b['error'] or 'ok') else 0
 	ctx2 = Ctx(PROP, rec.get('tier', 'quick'), int(rec.get('seed', 0)))
 	return run(ctx2)
+
+
+# ---------------------------------------------------------------------------------------------
+# search: PatternParser commutes with renaming of identifier tokens (real code only)
+
+
+FRAG_RESERVED = {'on', 'raw', 'ref', 'addr', 'weak', 'shared', 'const', 'return', 'auto', 'std', 'int', 'this', 'mutable', 'Any', 'void', 'static', 'inline', 'public'}
+
+
+def search_fragments(ctx: Ctx) -> SearchResult:
+	"""`f(rho(s)) == rho(f(s))` for every PatternParser helper, well-formed rendered fragments `s`, and injective renamings `rho` of
+	the identifier tokens of `s` that are not reserved words of the patterns (on, raw, ref, ...; C++ keywords)."""
+	from rogw.tranp.implements.cpp.transpiler.py2cpp import PatternParser
+	rng = ctx.sub_rng('frag-search')
+	res = SearchResult('PatternParser helpers commute with renaming of identifier tokens on well-formed fragments (real code only)')
+	hist: Counter[str] = Counter()
+	idents = ['ab', 'abc', 'item', 'items_', 'entry', 'node', 'Box', 'BoxItem', 'p', 'q2', 'a__b', 'recv', 'self_', 'value2']
+	fresh = ['xon', 'button', 'draw', 'xraw', 'pref', 'aconst', 'on_', 'ons', 'raws', 'return_x', 'x', 'A', 'itemsx', 'o', 'n', 'shared_', 'weaker', 'i__n']
+	ops = ['.', '->', '::']
+
+	def chain(n: int) -> str:
+		s = rng.choice(idents)
+		for _ in range(n):
+			s += rng.choice(ops) + rng.choice(idents) + rng.choice(['', '', '()', '(1)', '[0]'])
+		return s
+
+	shapes = {
+		'break_relay': lambda: chain(rng.randint(0, 2)) + rng.choice(ops) + rng.choice(idents),
+		'break_dict_iterator': lambda: chain(rng.randint(0, 2)) + rng.choice(['.', '->']) + rng.choice(['items', 'keys', 'values', *idents]) + '()',
+		'pluck_class_var_name': lambda: f"{rng.choice(['int', 'std::map<std::string, int>', 'inline static Box', 'Box::BoxItem'])} {rng.choice(idents)} = {chain(1)};",
+		'sub_cvar_relay': lambda: chain(rng.randint(0, 2)) + rng.choice(ops) + rng.choice(['on', 'on', *idents]) + '()',
+		'sub_cvar_to': lambda: chain(rng.randint(0, 2)) + rng.choice(ops) + rng.choice(['raw', 'ref', 'addr', 'const', *idents]) + '()',
+		'break_list_sort_key': lambda: (lambda e: f"[{rng.choice(['', '&', 'ab, p'])}]({rng.choice(['Box', 'Box::BoxItem', 'const Box&'])} {e}) -> {rng.choice(['int', 'Any'])} {{ return {e}{rng.choice(ops[:2])}{rng.choice(idents)}; }}")(rng.choice(idents)),
+		'pluck_func_call_arguments': lambda: chain(1) + f"({', '.join(chain(rng.randint(0, 1)) for _ in range(rng.randint(0, 3)))})",
+		'break_indexer': lambda: chain(1) + f'[{chain(rng.randint(0, 1))}]',
+		'pluck_cvar_new': lambda: rng.choice(['Box', 'Box::BoxItem', 'ab']) + f"({', '.join(chain(0) for _ in range(rng.randint(0, 2)))})",
+	}
+
+	def apply(name: str, s: str) -> Any:
+		try:
+			out = getattr(PatternParser, name)(s)
+			return tuple(out) if isinstance(out, (tuple, list)) else out
+		except Exception as e:  # noqa: BLE001
+			return f'<{exc_enum(e)}>'
+
+	def ren(x: Any, m: dict[str, str]) -> Any:
+		return tuple(c08gen.rename_text(y, m) for y in x) if isinstance(x, tuple) else c08gen.rename_text(x, m)
+
+	for i in range(ctx.scale(400, 5000)):
+		name = rng.choice(sorted(shapes))
+		s = shapes[name]()
+		toks = sorted({t for t in c08gen.IDENT_RE.findall(s) if t not in FRAG_RESERVED})
+		if not toks:
+			continue
+		chosen = rng.sample(toks, rng.randint(1, len(toks)))
+		pool = [f for f in fresh + idents if f not in c08gen.IDENT_RE.findall(s)]
+		rng.shuffle(pool)
+		m = dict(zip(chosen, pool))
+		res.cases += 1
+		hist[name] += 1
+		base = apply(name, s)
+		got = apply(name, c08gen.rename_text(s, m))
+		if isinstance(base, str) and base.startswith('<'):
+			hist[f'{name}:shape-not-matched'] += 1
+			continue
+		if got != ren(base, m) and not res.findings:
+			res.findings.append(Finding(key=f'fragment:{name}', what=f'PatternParser.{name}({s!r}) = {base!r}, but after renaming {m} the result is {got!r}',
+				replay={'origin': 'fragment', 'function': name, 'text': s, 'renaming': m, 'base': base, 'renamed': got}))
+		if len(res.samples) < 2:
+			res.samples.append({'function': name, 'text': s, 'renaming': m, 'result': base})
+	res.distinct = res.cases
+	res.histogram = dict(hist)
+	return res
 
 
 # ---------------------------------------------------------------------------------------------
@@ -1161,7 +1245,8 @@ def stream_naming(ctx: Ctx) -> Stream:
 			if rng.random() < 0.15 and d < depth - 1:
 				fn = rng.choice(['f', 'make', 'ab'])
 				path.append(fn)
-				up = fk['Function'](fn=f'{mod}#' + '.'.join(path), dn=fn, mp=mod, up=up)   # a function between two classes is skipped
+				up = fk['Function'](fn=f'{mod}#' + '.'.join(path), dn=fn, mp=mod, up=up)   # defs.Function IS a ClassDef: it counts as an ancestor
+				chain.append(up)
 				continue
 			n = rng.choice(names)
 			emb = None
